@@ -267,7 +267,10 @@ class ServerSet(object):
     # stat == None -> the node was deleted (or doesnt exist)
     if stat is None:
       self._watching = False
-      self._send_all_removed()
+      # The path is gone: report it to the notification worker as an empty child
+      # set, so that _nodes is reset and the leaves are raised (and their errors
+      # handled) in order with every other notification.
+      self._on_set_changed(())
     elif not self._watching:
       self._watching = True
       self._begin_watch()
@@ -275,11 +278,6 @@ class ServerSet(object):
   def _begin_watch(self):
     self._log.info('Beginning to watch path %s' % self._zk_path)
     ChildrenWatch(self._zk, self._zk_path, self._on_set_changed)
-
-  def _send_all_removed(self):
-    for k in self._members.keys():
-      member = self._members.pop(k)
-      self._on_leave(member)
 
   def _notification_worker(self):
     """'Atomically' raise notifications for join / leave.
